@@ -61,6 +61,22 @@ Theorem C02_volume_length : forall fx pol ffs3 h buf files h' b,
 Proof. exact asm_vol_v_len. Qed.
 Print Assumptions C02_volume_length.
 
+(* a rebuilt resizable (nested) volume with a power-of-two block size has exactly Length bytes;
+   Length is kept or, when the files need more, grows to the next block boundary, and the first
+   block-map entry is updated with it (Go's Align is a bit mask: equal to rounding up exactly for
+   powers of two, lemma align_go_pow2) *)
+Theorem C02_volume_length_resizable : forall fx pol ffs3 h buf files h' b c k rest,
+  asm_vol_v fx pol ffs3 h buf files = Ok (h', b) ->
+  vol_verbatim fx h files = false -> v_resizable h = true ->
+  v_blocks h = (c, 2 ^ k) :: rest -> 0 <= k < 64 -> 0 <= v_dataoff h ->
+  end_of (v_dataoff h) files + 2 ^ k <= 2 ^ 64 ->
+  zlen b = v_length h' /\
+  ((v_length h' = v_length h /\ v_blocks h' = v_blocks h) \/
+   (v_length h < v_length h' /\ v_length h' = align (end_of (v_dataoff h) files) (2 ^ k) /\
+    v_blocks h' = ((v_length h' / 2 ^ k) mod U32, 2 ^ k) :: rest)).
+Proof. exact asm_vol_v_len_resizable. Qed.
+Print Assumptions C02_volume_length_resizable.
+
 (* asm_fv_nospace at the volume: the rebuild of a non-resizable volume fails when a file would end
    beyond its Length (the error, not a truncated or overlapping volume) *)
 Theorem C02_volume_nospace : forall fx pol ffs3 h buf files,
@@ -117,8 +133,8 @@ Print Assumptions C02_volume_header_checksum.
    rebuilt from sections from C02_created_file_valid plus the section walk ([v_sections] over
    join4/gen_sec_header), neither link is proved; (2) the header rules of valid_fv other than
    length and checksum (signature, block map sum, extended header) - the header bytes below offset
-   60 other than Length/GUID/checksum are the input's; (3) resizable (nested) volumes, where Length
-   grows to Align(newlen, blocksize) with Go's bit-mask Align; (4) the composition
+   60 other than Length/GUID/checksum are the input's; (3) for resizable (nested) volumes only the length rule is proved
+   (C02_volume_length_resizable, power-of-two block sizes), not the file walk; (4) the composition
    section -> file -> nested volume -> region ([v_region] over copy_elems) and the fuel of valid_fv.
    These are covered on the implementation by the oracle p_c02 only. *)
 Theorem C02_valid_after_edits_partial : forall vfv fx pol ffs3 h buf files h' b,
